@@ -1333,6 +1333,33 @@ def make_replay(route: str) -> Any:
     return replay
 
 
+CT_CORPUS = [
+    ARROW + "ing", ARROW + "+json", ARROW + ".v2", ARROW + "s", ARROW.upper(), ARROW.title(), ARROW + "; charset=utf-8", ARROW + ";q=1",
+    ARROW + "," + ARROW, "application/vnd.apache.arrow", "application/vnd.apache.arrow.file", "x" + ARROW, "application/octet-stream", "text/plain", "application/json",
+]  # fmt: skip
+
+
+def make_search(route: str) -> Any:
+    """Bounded native search for the route units (used when a proof is lost and the solver's model does not replay):
+    near-miss Content-Type spellings x absent header, each judged against the status table by native_probe."""
+    from pyvc.api import ReplayResult
+
+    def search(ob: Any, seed: int = 0) -> Any:
+        base: dict[str, Any] = {"method_kind": "unary" if route == "unary" else "stream"}
+        for ct in CT_CORPUS:
+            inputs = dict(base, content_type=ct, content_type_present=True)
+            bad, detail = native_probe(route, inputs)
+            if bad:
+                return inputs, ReplayResult(True, detail)
+        inputs = dict(base, content_type_present=False)
+        bad, detail = native_probe(route, inputs)
+        if bad:
+            return inputs, ReplayResult(True, detail)
+        return None
+
+    return search
+
+
 def replay_middleware(inputs: dict[str, Any], ob: Any) -> Any:
     import gzip
     import warnings
